@@ -89,6 +89,29 @@ func BuildDTLCP(e EPConfig, reg *Registry) *dtlcp.Config {
 	if e.Clone {
 		c = c.Clone()
 	}
+	switch e.Via {
+	case "clone":
+		c = c.Clone()
+	case "host-clone":
+		// the virtual-hosting idiom: the listener's configuration only selects, every connection runs on a
+		// clone of the real one handed out by GetConfigForClient
+		inner := c
+		outer := &dtlcp.Config{Time: c.Time, Rand: c.Rand}
+		extraDTLCP(outer, e)
+		outer.GetConfigForClient = func(*dtlcp.ClientHelloInfo) (*dtlcp.Config, error) { return inner.Clone(), nil }
+		c = outer
+	case "host-lax":
+		// one host name is served by a configuration that asks for no client certificate; every other hello
+		// gets no answer from the callback, i.e. the configuration itself
+		lax := c.Clone()
+		lax.ClientAuth = dtlcp.NoClientCert
+		c.GetConfigForClient = func(h *dtlcp.ClientHelloInfo) (*dtlcp.Config, error) {
+			if h.ServerName == "lax.example" {
+				return lax, nil
+			}
+			return nil, nil
+		}
+	}
 	return c
 }
 
